@@ -74,7 +74,7 @@ def sliceLen (start stop step : Int) : Nat :=
 def enumerate {α} (l : List α) (start step : Int) : Nat → List α
   | 0 => []
   | n + 1 =>
-    (if 0 ≤ start then (match l[start.toNat]? with | some a => [a] | none => []) else [])
+    (if 0 ≤ start then (l[start.toNat]?).toList else [])
       ++ enumerate l (start + step) step n
 
 def pySliceList {α} (l : List α) (lo hi : Option Int) (step : Int) : List α :=
@@ -375,6 +375,28 @@ def planEager (comps : List Comp) (shape : List Nat) : Except Err Plan :=
           ++ (if scalars.isEmpty then [] else [.npSqueeze (scalars.map (·.2))])
         else []
       .ok (pre ++ vecs.filterMap (fun p => gatherOp p.2 p.1))
+
+deriving instance DecidableEq for Except
+
+/-- Per-axis effect of the converter's Slice(+Squeeze) path on a constant component: a slice
+becomes an ONNX slice with `convBounds`, a Python int `i` becomes `i:i+1:1` followed by Squeeze
+(which fails unless exactly one position was selected). -/
+def graphAxisSlicePath (c : Comp) (srcs : List Nat) : Except Err AxisMap :=
+  match c with
+  | .full => .ok (.pick srcs)
+  | .slice lo hi st =>
+    (match st with
+     | .dyn _ => .error .refused
+     | _ =>
+       let step := (st.val?).getD 1
+       if step == 0 then .error .valueError
+       else .ok (.pick (onnxSliceList srcs (convBounds lo.val? hi.val? step).1
+                          (convBounds lo.val? hi.val? step).2 step)))
+  | .int i =>
+    (match onnxSliceList srcs i (i + 1) 1 with
+     | [s] => .ok (.drop s)
+     | _ => .error .indexError)
+  | _ => .error .refused
 
 /-- Whole pipelines: `graphIndex` / `eagerIndex` give the view the front end computes. -/
 def graphIndex (comps : List Comp) (shape : List Nat) : Except Err View := do
